@@ -253,6 +253,8 @@ def main(a):
         parts["config"] = batch(ck, 0, 0, counts.get(ck, 0))
         parts["arglen"] = batch("ARGLEN", 0, 0, counts.get("ARGLEN", 0))
         parts["boundary"] = batch("BOUNDARY", 0, 0, counts.get("BOUNDARY", 0))
+        sk = "SCALE" if thorough else "SCALEQ"
+        parts["scale"] = batch(sk, 0, 0, counts.get(sk, 0))
         t_enum = time.time() - t1
         t1 = time.time()
         if thorough:
@@ -318,7 +320,7 @@ def main(a):
                         twin_cands.append({"run": r, "kind": kind, "seed": seed})
         t_twin = time.time() - t1
 
-        kinds = {"corpus": "CORPUS", "prefix": pk, "token": tk, "random": "RUNS", "light": "LIGHT", "config": ck, "arglen": "ARGLEN", "boundary": "BOUNDARY"}
+        kinds = {"corpus": "CORPUS", "prefix": pk, "token": tk, "random": "RUNS", "light": "LIGHT", "config": ck, "arglen": "ARGLEN", "boundary": "BOUNDARY", "scale": sk}
         cands = []
         for name, part in parts.items():
             for c in part["candidates"]:
@@ -508,6 +510,9 @@ def main(a):
                     "boundary_documents": {"kind": "BOUNDARY", "runs": parts["boundary"]["executed"], "of": counts.get("BOUNDARY", 0),
                                            "what": "one CR / one NUL inserted at every offset of input/example.*; the examples padded to 64 KiB with one special byte (CR, LF, NUL, #, space, letter) at every offset 2^k-2..2^k+1, k=8..16; %d curated edge documents (DOS/Mac line endings, torn between CR and LF, no final newline, torn inside the first block header, lengths exactly at 2^k-1, 2^k, 2^k+1); each via stdin and via path" % counts.get("EDGE", 0),
                                            "complete": parts["boundary"]["executed"] == counts.get("BOUNDARY", 0)},
+                    "moderately_scaled_values": {"kind": sk, "runs": parts["scale"]["executed"], "of": counts.get(sk, 0),
+                                                 "what": "every numeric value token of every data line of " + ("every shipped file" if thorough else "input/example.*") + " multiplied by each of -1, 0.001, 0.1, 0.5, 0.9, 1.1, 2, 10, 1000, 1e6 (documents stay well-formed; the physics point moves) x force_output on/off",
+                                                 "complete": parts["scale"]["executed"] == counts.get(sk, 0)},
                     "config_combinations": {"kind": ck, "runs": parts["config"]["executed"], "of": counts.get(ck, 0),
                                             "what": "all 480 valid GM2CalcConfig combinations (5 output formats x 3 loop orders x 2^5 switches) appended to " + ("every shipped file" if thorough else "input/example.* and three problem points"),
                                             "complete": parts["config"]["executed"] == counts.get(ck, 0)},
